@@ -177,6 +177,7 @@ type Obligation struct {
 	Pos        string
 	Assumed    bool // assumption-only (not checked)
 	ExpectFail bool // vacuity canary: must be sat
+	Pair       bool // canary pair (before / after): vacuous iff after is refuted and before is not
 }
 
 type unsupported struct{ msg string }
@@ -198,6 +199,7 @@ type Ex struct {
 	Notes        map[string]bool          // assumptions used (unmodelled externs, trusted contracts)
 	Props        map[string]bool          // properties whose clauses are to be checked (nil = all)
 	Safety       bool                     // generate no-panic obligations
+	Vacuity      bool                     // generate vacuity canaries
 	returns int
 	Lite    bool // BuildSMT: path facts and theory facts only (no axioms / unfoldings): a cheap first attempt
 	FrameChk     bool                     // generate store/frame obligations (C18)
